@@ -343,9 +343,32 @@ def monC05 (h : Hist) : Option String :=
           | none => none)
         else some s!"exchange {ri.n}: end-to-end fields served [{showHdrs got'}] differ from the origin's [{showHdrs want'}]" ]
 
+/-! ### C16 -/
+def monC16 (h : Hist) : Option String :=
+  first? [
+    h.own.head?.map fun n => s!"exchange {n}: the header map of a response was modified after it had been returned to the caller",
+    h.reqcmp.findSome? fun p => if p.2 then none else some s!"exchange {p.1}: the caller's request object was modified",
+    h.reqs.findSome? fun ri => do
+      let x ← h.ex ri
+      match x.res.kind with
+      | "panic" => some s!"exchange {ri.n}: RoundTrip panicked under concurrent use: {shw x.res.body}"
+      | "neither" | "both" => some s!"exchange {ri.n}: RoundTrip returned {x.res.kind}"
+      | _ =>
+        -- a self-consistent response: status and body of ONE origin reply
+        match x.token with
+        | some (m, k) =>
+          (h.reply m k).bind fun rp =>
+            if x.res.body ≠ rp.resp.body then some s!"exchange {ri.n}: body is not the body the origin sent in exchange {m}"
+            else if x.res.status ≠ rp.resp.status then some s!"exchange {ri.n}: status {x.res.status} with the body of a {rp.resp.status} response"
+            else none
+        | none => none,
+    monC03 h, monC04 h,
+    if h.leak > 0 then some s!"{h.leak} origin call(s) still pending at quiescence" else none ]
+
 def monitorFor4 (prop : String) : Hist → Option String :=
   match prop with
   | "C05" => monC05
+  | "C16" => monC16
   | p => monitorFor3 p
 
 end Httpcache.Driver
